@@ -695,6 +695,28 @@ Section CallFacts.
     split; [reflexivity|]. split; [reflexivity|]. split; [reflexivity|]. split; [reflexivity|].
     intros rep rest E. subst script. destruct rep; split; reflexivity.
   Qed.
+  (* every page request of a listing behaves as a single call with the caller's arguments; with an explicit timeout T
+     the first attempt of EVERY page carries T, whatever the configuration says *)
+  Lemma listing_every_page : forall row retry timeout scripts i s,
+    nth_error scripts i = Some s ->
+    nth_error (listing jitter row retry timeout scripts) i = Some (call jitter row retry timeout s).
+  Proof. intros. unfold listing. now apply map_nth_error. Qed.
+
+  Lemma listing_explicit_timeout : forall row row' retry T scripts i rep rest,
+    nth_error scripts i = Some (rep :: rest) ->
+    exists tr x, nth_error (listing jitter row retry (Given (Some T)) scripts) i = Some tr /\
+                 nth_error (listing jitter row' retry (Given (Some T)) scripts) i = Some (call jitter row' retry (Given (Some T)) (rep :: rest)) /\
+                 hd_error (t_timeouts tr) = Some (Some x) /\ x == T.
+  Proof.
+    intros row row' retry T scripts i rep rest H.
+    destruct (call_deadline (match retry with UseDefault => option_map effective (e_retry row) | Given r => r end) T rep rest)
+      as [[x [Hx Ex]] _].
+    exists (call jitter row retry (Given (Some T)) (rep :: rest)), x. repeat split.
+    - now apply listing_every_page.
+    - now apply listing_every_page.
+    - exact Hx.
+    - exact Ex.
+  Qed.
 End CallFacts.
 
 (* ------------------------------------------------------------------ non-vacuity *)
